@@ -34,6 +34,7 @@ ENTRIES = [
  ("revert-180b321-cli-json-escape",      ("revert", "180b321"), ["C20"], []),
  ("revert-75f8203-stream-loader",        ("revert", "75f8203"), ["C15"], []),
  ("revert-cffc8c0-random-range-overflow", ("revert", "cffc8c0"), ["C04"], []),
+ ("revert-e186a1a-skipped-temp-ref",     ("revert", "e186a1a"), ["C04"], []),
  ("revert-2cee00f-reset-revalidates",    ("revert", "2cee00f"), ["C04"], []),
  ("revert-488a3aa-messages-at-pause",    ("revert", "488a3aa"), ["C13"], ["C08"]),
  ("revert-3ab7dff-origins-order",        ("revert", "3ab7dff"), ["C03"], []),
